@@ -126,6 +126,16 @@ func c15Apply(m *c15Model, md c15Mod, src *dhcpv4.DHCPv4) dhcpv4.Modifier {
 	case 6:
 		m.withReply(src)
 		return dhcpv4.WithReply(src)
+	case 24:
+		// WithReply with ANOTHER packet as the peer (request- or reply-typed), applied to whatever the packet is by then
+		peer := &dhcpv4.DHCPv4{OpCode: dhcpv4.OpcodeType(1 + md.U32%2), HWType: iana.HWType(uint8(md.U32 >> 8)), Flags: uint16(md.U32>>16) & 0x8000,
+			ClientHWAddr: net.HardwareAddr(append([]byte{}, md.Val...)), Options: dhcpv4.Options{}}
+		if len(peer.ClientHWAddr) > 16 {
+			peer.ClientHWAddr = peer.ClientHWAddr[:16]
+		}
+		copy(peer.TransactionID[:], md.IP)
+		m.withReply(peer)
+		return dhcpv4.WithReply(peer)
 	case 7:
 		m.htype = uint8(md.U32)
 		return dhcpv4.WithHWType(iana.HWType(uint8(md.U32)))
@@ -443,7 +453,7 @@ func genC15() *rapid.Generator[c15Case] {
 		c.Spare = rapid.SampledFrom([]int{0, 0, 1, 3, 4, 8, 16}).Draw(t, "spare")
 		n := rapid.IntRange(0, 4).Draw(t, "nmods")
 		for i := 0; i < n; i++ {
-			md := c15Mod{Kind: rapid.IntRange(0, 23).Draw(t, "kind"), IP: rapid.SliceOfN(rapid.Byte(), 4, 4).Draw(t, "ip"),
+			md := c15Mod{Kind: rapid.IntRange(0, 24).Draw(t, "kind"), IP: rapid.SliceOfN(rapid.Byte(), 4, 4).Draw(t, "ip"),
 				U32: rapid.Uint32().Draw(t, "u32"), B: rapid.Bool().Draw(t, "b")}
 			if rapid.Bool().Draw(t, "smalltype") {
 				md.U32 = uint32(rapid.IntRange(0, 9).Draw(t, "msgtype")) // real message types (NAK, DECLINE, …) for WithMessageType
